@@ -40,6 +40,22 @@ Definition out_pool : list go_Output :=
     mk_go_Output 72623859790382856 (Some [x51]) ].
 Definition lists_of {A} (pool : list A) : list (list A) :=
   [] :: map (fun a => [a]) pool ++ flat_map (fun a => map (fun b => [a; b]) pool) pool.
+Definition lists3_of {A} (pool : list A) : list (list A) :=
+  lists_of pool ++ flat_map (fun a => flat_map (fun b => map (fun c => [a; b; c]) pool) pool) pool.
+(** cross products for the one-object functions: every amount / index / sequence at its byte boundaries (each byte distinct,
+    so that a byte order or a width slip shows), scripts at the compact-size boundaries *)
+Definition sats_pool : list Z := [0; 1; 255; 256; 65535; 65536; 4294967295; 4294967296; 72623859790382856; 578437695752307201;
+  9223372036854775807; 9223372036854775808; 18446744073709551615; 1099511627776; 16909060; 281474976710656].
+Definition script_pool : list (option bytes) :=
+  [Some []; Some [x6a]; Some [x00; x6a; x01]; Some [x76; xa9; x14]; Some (repeat x51 75); Some (repeat x52 76); Some (repeat x53 252);
+   Some (x6a :: repeat x51 252); Some (repeat x54 254); Some (repeat x55 255); Some (repeat x56 256); Some (repeat x57 300);
+   Some (repeat x58 65535); Some (repeat x59 65536)].
+Definition out_cross : list go_Output := flat_map (fun v => map (fun sc => mk_go_Output v sc) script_pool) sats_pool.
+Definition u32_pool : list Z := [0; 1; 255; 256; 65535; 65536; 16909060; 67305985; 4294967294; 4294967295].
+Definition in_cross : list go_Input :=
+  flat_map (fun id => flat_map (fun vout => flat_map (fun us => map (fun sq => mk_go_Input id 0 None us vout sq) [0; 16909060; 4294967295])
+     [None; Some []; Some [x51]; Some (repeat x52 252); Some (repeat x53 253); Some (repeat x54 65536)]) u32_pool)
+     [repeat_byte 32 x11; x01 :: repeat_byte 31 x00; (x01 :: x02 :: x03 :: x04 :: repeat_byte 27 xab) ++ [xff]].
 Record cand := mkCand { c_ins : list go_Input; c_outs : list go_Output; c_ver : Z; c_lock : Z }.
 Definition txs : list cand :=
   flat_map (fun i => flat_map (fun o => [mkCand i o 1 0; mkCand i o 4294967295 4009754624]) (lists_of out_pool)) (lists_of in_pool).
@@ -81,23 +97,23 @@ tx_fn("Tx_TotalOutputSatoshis", "Tx.TotalOutputSatoshis (txoutput.go)", "[total_
   "(c : cand) : bool :=\n  M_eq Z.eqb (Tx_TotalOutputSatoshis (map Some (c_outs c))) (Val (Z.of_N (total_out (c_tx c)))).")
 tx_fn("Tx_PreviousOutHash", "Tx.PreviousOutHash (txinput.go)", "[previous_out_hash] of model/SigHash.v",
   "(c : cand) : bool :=\n  M_eq bytes_eqb (Tx_PreviousOutHash (map Some (c_ins c))) (Val (previous_out_hash (c_tx c))).",
-  cands="(map (fun i => mkCand i [] 1 0) (lists_of in_pool))", domain="43 input lists (0..2 inputs from a pool of 6)")
+  cands="(map (fun i => mkCand i [] 1 0) (lists3_of in_pool))", domain="259 input lists (0..3 inputs from a pool of 6)")
 tx_fn("Tx_SequenceHash", "Tx.SequenceHash (txinput.go)", "[sequence_hash] of model/SigHash.v",
   "(c : cand) : bool :=\n  M_eq bytes_eqb (Tx_SequenceHash (map Some (c_ins c))) (Val (sequence_hash (c_tx c))).",
-  cands="(map (fun i => mkCand i [] 1 0) (lists_of in_pool))", domain="43 input lists (0..2 inputs from a pool of 6)")
+  cands="(map (fun i => mkCand i [] 1 0) (lists3_of in_pool))", domain="259 input lists (0..3 inputs from a pool of 6)")
 tx_fn("Tx_OutputsHash", "Tx.OutputsHash (signaturehash.go)", "[outputs_hash] of model/SigHash.v",
   "(cn : cand * Z) : bool :=\n  let (c, n) := cn in M_eq bytes_eqb (Tx_OutputsHash n (map Some (c_outs c))) (match outputs_hash (c_tx c) n with Some h => Val h | None => Panic end).",
   cands="(flat_map (fun o => map (fun n => (mkCand [] o 1 0, n)) [-2; -1; 0; 1; 2; 3; 2147483647; -2147483648]) (lists_of out_pool))",
   show="(fun cn : cand * Z => (\"n=\" ++ dec_Z (snd cn) ++ \",\" ++ show_cand (fst cn))%string)", domain="57 output lists (0..2 outputs from a pool of 7) x n in -2 .. 3 and the int32 limits")
 tx_fn("Output_Bytes", "Output.Bytes (output.go)", "[output_bytes] of model/Tx.v",
   "(g : go_Output) : bool :=\n  M_eq bytes_eqb (Output_Bytes (Output_Satoshis g) (Output_LockingScript g)) (Val (output_bytes (output_of_go g))).",
-  cands="out_pool", show="(fun g => (\"output:\" ++ hex_bytes (output_bytes (output_of_go g)))%string)", domain="a pool of 7 outputs (boundary amounts; empty, data, long scripts)")
+  cands="out_cross", show="(fun g => (\"output:\" ++ hex_bytes (firstn 40 (output_bytes (output_of_go g))) ++ \"...,script-length=\" ++ dec_Z (Z.of_nat (List.length (script_of (Output_LockingScript g)))))%string)", domain="16 amounts at their byte boundaries x 14 scripts at the compact-size boundaries (0 .. 65536 bytes)")
 tx_fn("Output_BytesForSigHash", "Output.BytesForSigHash (output.go)", "[bytes_for_sighash] of model/SigHash.v",
   "(g : go_Output) : bool :=\n  M_eq bytes_eqb (Output_BytesForSigHash (Output_Satoshis g) (Output_LockingScript g)) (Val (bytes_for_sighash (output_of_go g))).",
-  cands="out_pool", show="(fun g => (\"output:\" ++ hex_bytes (output_bytes (output_of_go g)))%string)", domain="a pool of 7 outputs (boundary amounts; empty, data, long scripts)")
+  cands="out_cross", show="(fun g => (\"output:\" ++ hex_bytes (firstn 40 (output_bytes (output_of_go g))) ++ \"...,script-length=\" ++ dec_Z (Z.of_nat (List.length (script_of (Output_LockingScript g)))))%string)", domain="16 amounts at their byte boundaries x 14 scripts at the compact-size boundaries (0 .. 65536 bytes)")
 tx_fn("Input_Bytes", "Input.Bytes (input.go)", "[input_bytes false] of model/Tx.v",
   "(gc : go_Input * bool) : bool :=\n  let (g, c) := gc in\n  M_eq bytes_eqb (Input_Bytes c (Input_previousTxID g) (Input_PreviousTxOutIndex g) (Input_UnlockingScript g) (Input_SequenceNumber g))\n       (Val (input_bytes false (mkInput (Input_previousTxID g) (Z.to_N (Input_PreviousTxOutIndex g)) (if c then [] else script_of (Input_UnlockingScript g)) (Z.to_N (Input_SequenceNumber g)) 0 None))).",
-  cands="(flat_map (fun g => [(g, false); (g, true)]) in_pool)", show="(fun gc : go_Input * bool => ((if snd gc then \"clear,\"%string else \"keep,\"%string) ++ \"input:\" ++ hex_bytes (input_bytes true (input_of_go (fst gc))))%string)", domain="a pool of 6 inputs x clear / keep")
+  cands="(flat_map (fun g => [(g, false); (g, true)]) (in_pool ++ in_cross))", show="(fun gc : go_Input * bool => ((if snd gc then \"clear,\"%string else \"keep,\"%string) ++ \"input:\" ++ hex_bytes (input_bytes true (input_of_go (fst gc))))%string)", domain="a pool of 6 inputs plus 3 txids x 10 indices x 6 unlocking scripts (nil, empty, 1, 252, 253, 65536 bytes) x 3 sequences, x clear / keep")
 FEES = '''Definition rate_of_go (f : go_Fee) : rate :=
   mkRate (Z.to_N (go_conv U64 (Fee_MiningFee_Satoshis f))) (Z.to_N (go_conv U64 (Fee_MiningFee_Bytes f))).
 Definition quote_of_go (std data : option go_Fee) : quote := mkQuote (option_map rate_of_go std) (option_map rate_of_go data).
